@@ -305,60 +305,76 @@ func ruleReverse(w *World, r *Report, rule string) {
 // ruleSwap: the snapshot of a table and its reset happen in one critical section.
 func ruleSwap(w *World, r *Report, rule string, la *LockAnalysis) {
 	for _, c := range closers(w) {
-		info := c.fi.Pkg.TypesInfo
-		u := la.byFunc[c.fi.Obj]
-		// fact "snap:<field>" from the read of the field until the next mutex operation
-		sol := u.flow.Solve(Spec{Must: true, Node: func(n ast.Node, in Facts) (gen, kill []string) {
-			for _, cc := range callsIn(n, false) {
-				if _, _, _, ok := mutexOp(info, cc); ok {
-					kill = append(kill, "snap:*")
-				}
-			}
-			switch s := n.(type) {
-			case *ast.AssignStmt:
-				for _, rhs := range s.Rhs {
-					if fv := fieldOf(info, rhs); fv != nil {
-						gen = append(gen, "snap:"+c.ca.w.canonName(fv))
-					}
-				}
-			case ast.Expr: // range expression
-				if fv := fieldOf(info, s); fv != nil {
-					gen = append(gen, "snap:"+c.ca.w.canonName(fv))
-				}
-			}
-			return
-		}})
-		for _, n := range u.flow.Nodes() {
-			as, ok := n.(*ast.AssignStmt)
-			if !ok || len(as.Lhs) != len(as.Rhs) {
+		// Close and its private helpers: the snapshot and the reset live in one of them
+		for _, unitFn := range c.units() {
+			info := unitFn.Pkg.TypesInfo
+			u := la.byFunc[unitFn.Obj]
+			if u == nil {
 				continue
 			}
-			for i, l := range as.Lhs {
-				fv := fieldOf(info, l)
-				if fv == nil || !isNilIdent(info, as.Rhs[i]) {
-					continue
-				}
-				switch fv.Type().Underlying().(type) {
-				case *types.Slice, *types.Map:
-				default:
-					continue
-				}
-				con := c.fi.Name() + "#reset:" + c.ca.w.canonName(fv)
-				// fields that are only reset, never handed on (cache), need no snapshot
-				usedAsSnapshot := false
-				for _, l := range c.ca.reachableLoops() {
-					if l.field == fv {
-						usedAsSnapshot = true
+			// fact "snap:<field>" from the read of the field until the next mutex operation
+			sol := u.flow.Solve(Spec{Must: true, Node: func(n ast.Node, in Facts) (gen, kill []string) {
+				for _, cc := range callsIn(n, false) {
+					if _, _, _, ok := mutexOp(info, cc); ok {
+						kill = append(kill, "snap:*")
 					}
 				}
-				if !usedAsSnapshot {
-					r.OK(rule, con, as.Pos(), false, "table is reset without being handed on")
+				note := func(e ast.Expr) {
+					// the field itself, or an expression that reads all of it (maps.Keys(x.f), slices.Collect(…))
+					ast.Inspect(e, func(m ast.Node) bool {
+						if ex, ok := m.(ast.Expr); ok {
+							if fv := fieldOf(info, ex); fv != nil {
+								switch fv.Type().Underlying().(type) {
+								case *types.Map, *types.Slice:
+									gen = append(gen, "snap:"+c.ca.w.canonName(fv))
+								}
+							}
+						}
+						return true
+					})
+				}
+				switch s := n.(type) {
+				case *ast.AssignStmt:
+					for _, rhs := range s.Rhs {
+						note(rhs)
+					}
+				case ast.Expr: // range expression
+					note(s)
+				}
+				return
+			}})
+			for _, n := range u.flow.Nodes() {
+				as, ok := n.(*ast.AssignStmt)
+				if !ok || len(as.Lhs) != len(as.Rhs) {
 					continue
 				}
-				if sol.Before[n].Has("snap:" + c.ca.w.canonName(fv)) {
-					r.OK(rule, con, as.Pos(), true, "snapshot and reset of %s happen inside one critical section: each entry is handed to exactly one Close call", fv.Name())
-				} else {
-					r.Fail(rule, con, as.Pos(), "%s is reset to nil in a different critical section than the one that took its snapshot: entries added in between are dropped without being closed", fv.Name())
+				for i, l := range as.Lhs {
+					fv := fieldOf(info, l)
+					if fv == nil || !isNilIdent(info, as.Rhs[i]) {
+						continue
+					}
+					switch fv.Type().Underlying().(type) {
+					case *types.Slice, *types.Map:
+					default:
+						continue
+					}
+					con := c.fi.Name() + "#reset:" + c.ca.w.canonName(fv)
+					// fields that are only reset, never handed on (cache), need no snapshot
+					usedAsSnapshot := false
+					for _, l := range c.ca.reachableLoops() {
+						if l.field == fv {
+							usedAsSnapshot = true
+						}
+					}
+					if !usedAsSnapshot {
+						r.OK(rule, con, as.Pos(), false, "table is reset without being handed on")
+						continue
+					}
+					if sol.Before[n].Has("snap:" + c.ca.w.canonName(fv)) {
+						r.OK(rule, con, as.Pos(), true, "snapshot and reset of %s happen inside one critical section: each entry is handed to exactly one Close call", fv.Name())
+					} else {
+						r.Fail(rule, con, as.Pos(), "%s is reset to nil in a different critical section than the one that took its snapshot: entries added in between are dropped without being closed", fv.Name())
+					}
 				}
 			}
 		}
@@ -401,17 +417,30 @@ func ruleCloseOrder(w *World, r *Report, rule string) {
 			}
 		}
 		if c.owner == "provider" {
-			// root scope after the tracked scopes
-			for _, n := range c.ca.flow.Nodes() {
-				for _, call := range callsIn(n, false) {
-					if rcv, k, ok := isCloseCall(c.fi.Pkg.TypesInfo, call); ok && k == "scope" {
-						if fv := fieldOf(c.fi.Pkg.TypesInfo, rcv); fv != nil && c.ca.w.canonName(fv) == "rootScope" {
-							_, scopes := c.ca.sol.Before[n].HasPrefix("closedall:provider.scopes:")
-							r.Check(scopes, rule, c.fi.Name()+"#order:root-after-scopes", call.Pos(), true,
-								"the root scope is closed after every tracked scope",
-								"the root scope can be closed before the tracked scopes")
-						}
+			// root scope after the tracked scopes (the call may live in a private helper of Close)
+			for _, unitFn := range c.units() {
+				uinfo := unitFn.Pkg.TypesInfo
+				for _, call := range callsIn(unitFn.Decl.Body, false) {
+					rcv, k, ok := isCloseCall(uinfo, call)
+					if !ok || k != "scope" {
+						continue
 					}
+					fv := fieldOf(uinfo, rcv)
+					if fv == nil || c.ca.w.canonName(fv) != "rootScope" {
+						continue
+					}
+					var before Facts
+					if unitFn == c.fi {
+						if n := c.ca.flow.NodeContaining(call.Pos()); n != nil {
+							before = c.ca.sol.Before[n]
+						}
+					} else {
+						before = c.factsBeforeCallInto(unitFn)
+					}
+					_, scopes := before.HasPrefix("closedall:provider.scopes:")
+					r.Check(scopes, rule, c.fi.Name()+"#order:root-after-scopes", call.Pos(), true,
+						"the root scope is closed after every tracked scope",
+						"the root scope can be closed before the tracked scopes")
 				}
 			}
 		}
@@ -425,6 +454,27 @@ func (c *closer) factsBeforeHelperWith(l *closeLoop) Facts {
 		for _, call := range callsIn(n, false) {
 			if cal := callee(info, call); cal != nil {
 				if t := c.ca.w.Decls[cal]; t != nil && t.Decl.Body.Pos() <= l.head() && l.head() < t.Decl.Body.End() {
+					return c.ca.sol.Before[n]
+				}
+			}
+		}
+	}
+	return nil
+}
+
+// factsBeforeCallInto: the facts that hold in Close before the node through
+// which the helper fn is (transitively) reached.
+func (c *closer) factsBeforeCallInto(fn *FuncInfo) Facts {
+	info := c.fi.Pkg.TypesInfo
+	w := c.ca.w
+	for _, n := range c.ca.flow.Nodes() {
+		for _, call := range callsIn(n, false) {
+			cal := callee(info, call)
+			if cal == nil || w.Decls[cal] == nil {
+				continue
+			}
+			for _, g := range w.Within(w.Decls[cal], 2) {
+				if g == fn {
 					return c.ca.sol.Before[n]
 				}
 			}
@@ -474,65 +524,25 @@ func ruleCascade(w *World, r *Report, rule string) {
 func ruleErrorsAccumulate(w *World, r *Report, ruleAcc, ruleResult string) {
 	for _, c := range closers(w) {
 		info := c.fi.Pkg.TypesInfo
-		// the accumulator: variable used as Errors: in the DisposalError literal
-		var acc types.Object
+		units := c.units()
+		// F: the function (Close or a private helper: disposalResult(errs), acc.result(ctx))
+		// that builds the DisposalError; accF: the object it takes Errors from
+		var F *FuncInfo
+		var accF types.Object
 		var lit *ast.CompositeLit
-		ast.Inspect(c.fi.Decl.Body, func(n ast.Node) bool {
-			if cl, ok := n.(*ast.CompositeLit); ok {
-				if tv, ok := info.Types[cl]; ok && isNamedType(tv.Type, modPath, "DisposalError") {
-					if e, ok := compositeFields(cl)["Errors"]; ok {
-						acc = objOf(info, e)
-						lit = cl
-					}
-				}
-			}
-			return true
-		})
-		if acc == nil {
-			r.Fail(ruleResult, c.fi.Name()+"#result", c.fi.Decl.Pos(), "%s never builds a DisposalError from an error accumulator", c.fi.Name())
-			continue
-		}
-		// every Close() call made by Close (and its helpers' loops): error appended
-		n := 0
-		var visit func(body *ast.BlockStmt, accObj types.Object, where string)
-		visit = func(body *ast.BlockStmt, accObj types.Object, where string) {
-			ast.Inspect(body, func(x ast.Node) bool {
-				if _, isLit := x.(*ast.FuncLit); isLit {
-					return false
-				}
-				ifs, ok := x.(*ast.IfStmt)
-				if ok && ifs.Init != nil {
-					if as, ok := ifs.Init.(*ast.AssignStmt); ok && len(as.Rhs) == 1 {
-						if call, ok := unparen(as.Rhs[0]).(*ast.CallExpr); ok {
-							if _, k, isC := isCloseCall(info, call); isC && k != "other" {
-								n++
-								con := fmt.Sprintf("%s#close-error/%d", where, n)
-								errObj := objOf(info, as.Lhs[0])
-								appended := false
-								early := false
-								ast.Inspect(ifs.Body, func(y ast.Node) bool {
-									switch s := y.(type) {
-									case *ast.AssignStmt:
-										if len(s.Lhs) == 1 && len(s.Rhs) == 1 && objOf(info, s.Lhs[0]) == accObj {
-											if ap, ok := unparen(s.Rhs[0]).(*ast.CallExpr); ok && exprStr(ap.Fun) == "append" && len(ap.Args) >= 2 {
-												if objOf(info, ap.Args[0]) == accObj && errObj != nil && usesObj(info, ap.Args[1], errObj) {
-													appended = true
-												}
-											}
-										}
-									case *ast.ReturnStmt, *ast.BranchStmt:
-										early = true
-									}
-									return true
-								})
-								switch {
-								case early:
-									r.Fail(ruleAcc, con, call.Pos(), "an error from %s makes Close leave early: the remaining instances are never closed", exprStr(call.Fun))
-								case !appended:
-									r.Fail(ruleAcc, con, call.Pos(), "the error returned by %s is not appended to the accumulator %s that feeds the DisposalError", exprStr(call.Fun), accObj.Name())
-								default:
-									r.OK(ruleAcc, con, call.Pos(), true, "error of %s is appended to %s and the traversal continues", exprStr(call.Fun), accObj.Name())
+		for _, u := range units {
+			ast.Inspect(u.Decl.Body, func(n ast.Node) bool {
+				if cl, ok := n.(*ast.CompositeLit); ok {
+					if tv, ok := info.Types[cl]; ok && isNamedType(tv.Type, modPath, "DisposalError") {
+						if e, ok := compositeFields(cl)["Errors"]; ok {
+							e = unparen(e)
+							if cv, isConv := e.(*ast.CallExpr); isConv && len(cv.Args) == 1 {
+								if tv, ok := info.Types[cv.Fun]; ok && tv.IsType() {
+									e = unparen(cv.Args[0]) // []error(acc)
 								}
+							}
+							if o := baseObj(info, e); o != nil {
+								F, accF, lit = u, o, cl
 							}
 						}
 					}
@@ -540,32 +550,17 @@ func ruleErrorsAccumulate(w *World, r *Report, ruleAcc, ruleResult string) {
 				return true
 			})
 		}
-		visit(c.fi.Decl.Body, acc, c.fi.Name())
-		// Close calls whose result is discarded or not checked
-		for _, node := range c.ca.flow.Nodes() {
-			for _, call := range callsIn(node, false) {
-				if _, k, isC := isCloseCall(info, call); isC && k != "other" {
-					checked := false
-					if as, ok := node.(*ast.AssignStmt); ok && len(as.Lhs) == 1 {
-						if id, ok := as.Lhs[0].(*ast.Ident); ok && id.Name != "_" {
-							checked = true
-						}
-					}
-					if !checked {
-						n++
-						r.Fail(ruleAcc, fmt.Sprintf("%s#close-error/%d", c.fi.Name(), n), call.Pos(), "the error returned by %s is discarded: a failure in the subtree is not reported", exprStr(call.Fun))
-					}
-				}
-			}
+		if F == nil {
+			r.Fail(ruleResult, c.fi.Name()+"#result", c.fi.Decl.Pos(), "%s never builds a DisposalError from an error accumulator", c.fi.Name())
+			continue
 		}
-		// result
+		// ---- the result: DisposalError exactly on the non-empty edge
 		con := c.fi.Name() + "#result"
 		bad := ""
-		for _, ex := range c.wonExits() {
-			f := c.ca.sol.AtExit(ex)
+		checkExit := func(f Facts, ex Exit, acc types.Object) {
 			if ex.Ret == nil || len(ex.Ret.Results) != 1 {
 				bad = "an exit past the gate returns nothing"
-				continue
+				return
 			}
 			res := ex.Ret.Results[0]
 			switch {
@@ -581,12 +576,151 @@ func ruleErrorsAccumulate(w *World, r *Report, ruleAcc, ruleResult string) {
 				bad = fmt.Sprintf("the exit at %s returns %s, neither nil nor the DisposalError built from %s", w.Pos(ex.Pos), exprStr(res), acc.Name())
 			}
 		}
+		// A: the accumulator in Close's own namespace
+		A := accF
+		if F == c.fi {
+			for _, ex := range c.wonExits() {
+				checkExit(c.ca.sol.AtExit(ex), ex, accF)
+			}
+		} else {
+			ffl := w.FlowOf(F)
+			fsol := c.ca.ev.Solve(ffl, true)
+			for _, ex := range ffl.Exits() {
+				if !ex.Panic {
+					checkExit(fsol.AtExit(ex), ex, accF)
+				}
+			}
+			// Close returns F(accumulator) on every exit past the gate
+			A = nil
+			for _, ex := range c.wonExits() {
+				if ex.Ret == nil || len(ex.Ret.Results) != 1 {
+					bad = "an exit past the gate returns nothing"
+					continue
+				}
+				call, ok := unparen(ex.Ret.Results[0]).(*ast.CallExpr)
+				if !ok || callee(info, call) != F.Obj {
+					bad = fmt.Sprintf("the exit at %s returns %s, not the result of %s", w.Pos(ex.Pos), exprStr(ex.Ret.Results[0]), F.Name())
+					continue
+				}
+				// the argument in the accumulator's position
+				var arg ast.Expr
+				if F.Decl.Recv != nil && len(F.Decl.Recv.List[0].Names) == 1 && info.Defs[F.Decl.Recv.List[0].Names[0]] == accF {
+					arg, _, _ = methodCall(call)
+				}
+				k := 0
+				for _, fl := range F.Decl.Type.Params.List {
+					for _, nm := range fl.Names {
+						if info.Defs[nm] == accF && k < len(call.Args) {
+							arg = call.Args[k]
+						}
+						k++
+					}
+				}
+				if arg == nil || baseObj(info, arg) == nil {
+					bad = fmt.Sprintf("%s is not given the error accumulator", F.Name())
+					continue
+				}
+				A = baseObj(info, arg)
+			}
+			if A == nil && bad == "" {
+				bad = "no exit past the gate returns the result of " + F.Name()
+			}
+		}
 		if bad != "" {
 			r.Fail(ruleResult, con, lit.Pos(), "%s", bad)
 		} else {
-			r.OK(ruleResult, con, lit.Pos(), true, "past the gate, Close returns DisposalError{Errors: %s} exactly on the len(%s) > 0 edge and nil otherwise", acc.Name(), acc.Name())
+			r.OK(ruleResult, con, lit.Pos(), true, "past the gate, Close returns DisposalError{Errors: %s} exactly on the len(%s) > 0 edge and nil otherwise", accF.Name(), accF.Name())
+		}
+		if A == nil {
+			continue
+		}
+		// ---- every Close() error obtained by Close and its helpers reaches the accumulator
+		vf := newVFlow(w, units, func(ci *types.Info, call *ast.CallExpr) bool {
+			_, k, isC := isCloseCall(ci, call)
+			return isC && k != "other"
+		})
+		n := 0
+		for _, src := range vf.srcs {
+			n++
+			conE := fmt.Sprintf("%s#close-error/%d", src.fn.Name(), n)
+			switch {
+			case src.drop:
+				r.Fail(ruleAcc, conE, src.call.Pos(), "the error returned by %s is discarded: a failure in the subtree is not reported", exprStr(src.call.Fun))
+			case !vf.reaches(src.obj, A):
+				r.Fail(ruleAcc, conE, src.call.Pos(), "the error returned by %s is not appended to the accumulator %s that feeds the DisposalError", exprStr(src.call.Fun), A.Name())
+			default:
+				// leaving early on the error: a return / break / goto that is control dependent on it
+				early := earlyExitOnError(w, src)
+				if early != "" {
+					r.Fail(ruleAcc, conE, src.call.Pos(), "an error from %s makes Close leave early (%s): the remaining instances are never closed", exprStr(src.call.Fun), early)
+				} else {
+					r.OK(ruleAcc, conE, src.call.Pos(), true, "error of %s flows into %s and the traversal continues", exprStr(src.call.Fun), A.Name())
+				}
+			}
 		}
 	}
+}
+
+// units: Close and the private functions that only the Close methods (and their
+// helpers) call and that this Close reaches.
+func (c *closer) units() []*FuncInfo {
+	w := c.ca.w
+	base := map[*FuncInfo]string{}
+	for _, o := range []string{"scope", "provider"} {
+		base[w.MustFn(w.Godi, "(*"+o+").Close")] = "Close"
+	}
+	closure := w.HelperClosure(base)
+	var out []*FuncInfo
+	for _, f := range w.Within(c.fi, 3) {
+		if _, ok := closure[f]; ok && (f == c.fi || f.Obj.Name() != "Close") {
+			out = append(out, f)
+		}
+	}
+	return out
+}
+
+// earlyExitOnError: inside the statement that binds the error (if err := x.Close(); err != nil {…})
+// or right after it, a return/break/goto under the error's non-nil test.
+func earlyExitOnError(w *World, src vsource) string {
+	info := src.fn.Pkg.TypesInfo
+	var errObj types.Object
+	var holder ast.Stmt
+	ast.Inspect(src.fn.Decl.Body, func(n ast.Node) bool {
+		if as, ok := n.(*ast.AssignStmt); ok && len(as.Rhs) == 1 && unparen(as.Rhs[0]) == ast.Expr(src.call) && len(as.Lhs) == 1 {
+			errObj = baseObj(info, as.Lhs[0])
+			holder = as
+		}
+		return true
+	})
+	if errObj == nil {
+		return ""
+	}
+	early := ""
+	ast.Inspect(src.fn.Decl.Body, func(n ast.Node) bool {
+		ifs, ok := n.(*ast.IfStmt)
+		if !ok {
+			return true
+		}
+		if !isNilTestOf(info, ifs.Cond, func(e ast.Expr) bool { return objOf(info, e) == errObj }, true) {
+			return true
+		}
+		if ifs.Init != nil && ifs.Init != holder && ifs.Pos() < holder.Pos() {
+			return true
+		}
+		inspectNoLit(ifs.Body, func(m ast.Node) bool {
+			switch b := m.(type) {
+			case *ast.ReturnStmt:
+				early = "return at " + w.Pos(b.Pos())
+			case *ast.BranchStmt:
+				if b.Tok == token.BREAK || b.Tok == token.GOTO {
+					early = b.Tok.String() + " at " + w.Pos(b.Pos())
+				}
+			}
+			return true
+		})
+		return true
+	})
+	return early
 }
 
 // ruleRelease: R14.1/R14.2/R14.4 - past the gate every path of scope.Close
